@@ -49,7 +49,7 @@ class Cls:
     nested: list = field(default_factory=list)
     doc: str | None = None
     is_exception: bool = False
-    nested_first: bool = False  # nested classes are written before the attributes and the constructor
+    order: tuple | None = None  # order of the member sections in the source (None: attributes, constructor, nested, methods)
 
 
 @dataclass
@@ -153,19 +153,22 @@ def render_fn(fn: Fn, indent: str = "") -> str:
     return "".join(out)
 
 
+DEFAULT_MEMBER_ORDER = ("cattrs", "ctor", "nested", "methods1", "methods2")
+
+
 def render_cls(c: Cls, indent: str = "") -> str:
     bases = f"({', '.join(c.bases)})" if c.bases else ""
     out = [f"{indent}class {c.name}{bases}:\n", _doc(c.doc, indent + "    ")]
-    body = []
+    sec: dict = {k: [] for k in DEFAULT_MEMBER_ORDER}
     for a in c.cattrs:
         s = f"{indent}    {a.name}"
         if a.anno:
             s += f": {a.anno}"
         if a.value is not None:
             s += f" = {a.value}"
-        body.append(s + "\n")
+        sec["cattrs"].append(s + "\n")
     if c.cattrs:
-        body.append("\n")
+        sec["cattrs"].append("\n")
     if c.ctor is not None or c.iattrs:
         ctor = c.ctor or Fn("__init__", role="ctor")
         ctor.role = "ctor"
@@ -181,22 +184,20 @@ def render_cls(c: Cls, indent: str = "") -> str:
             ctor.body = "\n".join(lines)
         elif ctor.body == "...":
             ctor.body = "pass"
-        body.append(render_fn(ctor, indent + "    ") + "\n")
+        sec["ctor"].append(render_fn(ctor, indent + "    ") + "\n")
         ctor.body = saved
-    nested_src = []
     for n in c.nested:
         if isinstance(n, En):
-            nested_src.append(render_enum(n, indent + "    ") + "\n")
+            sec["nested"].append(render_enum(n, indent + "    ") + "\n")
         else:
-            nested_src.append(render_cls(n, indent + "    ") + "\n")
-    if c.nested_first:
-        body = nested_src + body
-    else:
-        body += nested_src
-    for m in c.methods:
-        body.append(render_fn(m, indent + "    ") + "\n")
+            sec["nested"].append(render_cls(n, indent + "    ") + "\n")
+    half = (len(c.methods) + 1) // 2
+    for k, m in enumerate(c.methods):
+        dst = sec["methods1" if k < half else "methods2"]
+        dst.append(render_fn(m, indent + "    ") + "\n")
         if m.role == "prop" and m.setter:
-            body.append(f"{indent}    @{m.name}.setter\n{indent}    def {m.name}(self, value: {m.ret or 'int'}) -> None:\n{indent}        ...\n\n")
+            dst.append(f"{indent}    @{m.name}.setter\n{indent}    def {m.name}(self, value: {m.ret or 'int'}) -> None:\n{indent}        ...\n\n")
+    body = [x for k in (c.order or DEFAULT_MEMBER_ORDER) for x in sec[k]]
     if not body and c.doc is None:
         body.append(f"{indent}    pass\n")
     return "".join(out) + "".join(body)
@@ -463,6 +464,7 @@ class GenCfg:
     local_foreign_lower: bool = False  # ... and its lower-case class names (they change under naming conversion)
     private_bases: bool = False  # public classes derive from private classes of their module and override some methods
     private_name_clashes: bool = False  # private members named like re-exported private module-level declarations
+    shuffle_members: bool = True  # the member sections of a class (attributes, constructor, nested classes, two halves of the methods) in any order
     shared_member_names: bool = False  # nested classes reuse member names of their outer class
     twins: bool = False  # modules with the same name (and some equal declaration names) in different packages
     twin_module_reexports: bool = False  # star / module-alias re-exports of a module whose name another module shares
@@ -684,8 +686,10 @@ def _random_cls(rng, names, priv, public_classes, m, cfg, depth) -> Cls:
                     if f.role == "inst" and not any(x.name == f.name for x in inner.methods):
                         inner.methods.append(Fn(f.name, [Param(names.fresh("sh"), "int")], "int", role="inst"))
             c.nested.append(inner)
-        if cfg.shared_member_names:
-            c.nested_first = rng.random() < 0.5
+    if cfg.shuffle_members and rng.random() < 0.6:
+        order = list(DEFAULT_MEMBER_ORDER)
+        rng.shuffle(order)
+        c.order = tuple(order)
     return c
 
 
